@@ -264,12 +264,14 @@ func hashMethod(name string) opaqueMethodFn {
 	case "Write":
 		return func(e *Exec, ov *OpaqueVal, args []Value) Value {
 			st := ov.data.(*hashState)
+			e.recordAccess("W", fmt.Sprintf("hash%p", st)) // a hash.Hash is not safe for concurrent use
 			st.buf = mkConcat(st.buf, e.bytesTerm(args[0]))
 			return tuple(e.lenOf(args[0]), nilIface)
 		}
 	case "Sum":
 		return func(e *Exec, ov *OpaqueVal, args []Value) Value {
 			st := ov.data.(*hashState)
+			e.recordAccess("R", fmt.Sprintf("hash%p", st))
 			pre := mkStr("")
 			if sl, ok := args[0].(*SliceVal); !ok || !sl.isNil {
 				pre = e.bytesTerm(args[0])
@@ -278,6 +280,7 @@ func hashMethod(name string) opaqueMethodFn {
 		}
 	case "Reset":
 		return func(e *Exec, ov *OpaqueVal, args []Value) Value {
+			e.recordAccess("W", fmt.Sprintf("hash%p", ov.data.(*hashState)))
 			ov.data.(*hashState).buf = mkStr("")
 			return nil
 		}
